@@ -22,6 +22,8 @@ EXHAUSTIVE = {'quick': True, 'thorough': True}
 KEYS = {
     'none': None, 'discard': 'DISCARD', 'bare': 'abcdefBLOB', 'pref2': 'RSA1024:abcdefBLOB', 'pref3': 'ED25519-V3:abcdefBLOB',
     'crlf': 'abc\r\ndef', 'lf': 'RSA1024:ab\ncd',
+    # a line break at the very end is a line break (blanks inside a key are outside the quantifier: a blob is base64)
+    'padded-lf': 'RSA1024:abcdefBLOB\n', 'lead-crlf': '\r\nabcdefBLOB',
 }
 AUTHS = {'noauth': None, 'basic0': [], 'basic1': ['alice'], 'basic2': [('alice', 'tok123'), 'bob']}
 PORTSETS = {
@@ -53,6 +55,14 @@ def gen_cases(rng, tier):
         if tier == 'quick' and ps not in ('pair', 'three', 'int') and (det or sh):
             continue
         yield {'version': ver, 'key': key, 'detach': det, 'single_hop': sh, 'auth': auth, 'ports': ps}
+    # the same requests through the builder object applications hold: Tor.create_onion_service (no client authorisation there)
+    for ver, key, det, sh, ps in itertools.product([2, 3], sorted(KEYS), [False, True], [False, True], ['pair', 'unix', 'addr', 'str', 'three']):
+        if det and sh:
+            continue
+        yield {'version': ver, 'key': key, 'detach': det, 'single_hop': sh, 'auth': 'noauth', 'ports': ps, 'entry': 'tor'}
+    # two services created from one authorisation object (clients without tokens get Tor's tokens — for that service only)
+    for ver, auth, key in itertools.product([2, 3], ['basic0', 'basic1', 'basic2'], ['none', 'bare']):
+        yield {'version': ver, 'key': key, 'detach': False, 'single_hop': False, 'auth': auth, 'ports': 'pair', 'twice': True}
     # removal asked twice because Tor refused the first DEL_ONION
     for ver, auth in itertools.product([2, 3], sorted(AUTHS)):
         yield {'version': ver, 'key': sorted(KEYS)[0], 'detach': False, 'single_hop': False, 'auth': auth, 'ports': 'pair', 'del_refused': True}
@@ -71,20 +81,31 @@ def run_impl(c):
         key = DISCARD
     out = {'result': 'pending'}
     try:
-        if AUTHS[c['auth']] is None:
+        if c.get('entry') == 'tor':
+            from txtorcon.controller import Tor
+            d = Tor(reactor, st.proto, _tor_config=cfg).create_onion_service(list(PORTSETS[c['ports']]), private_key=key, version=c['version'],
+                                                                            single_hop=c['single_hop'], detach=c['detach'])
+        elif AUTHS[c['auth']] is None:
             d = EphemeralOnionService.create(reactor, cfg, list(PORTSETS[c['ports']]), detach=c['detach'], private_key=key,
                                              version=c['version'], single_hop=c['single_hop'])
         else:
+            auth = AuthBasic(AUTHS[c['auth']])
             d = EphemeralAuthenticatedOnionService.create(reactor, cfg, list(PORTSETS[c['ports']]), detach=c['detach'], private_key=key,
-                                                          version=c['version'], single_hop=c['single_hop'],
-                                                          auth=AuthBasic(AUTHS[c['auth']]))
+                                                          version=c['version'], single_hop=c['single_hop'], auth=auth)
+            if c.get('twice'):
+                # the application creates a second service from the very same authorisation object: the request is the same request
+                d2 = EphemeralAuthenticatedOnionService.create(reactor, cfg, list(PORTSETS[c['ports']]), detach=c['detach'], private_key=key,
+                                                               version=c['version'], single_hop=c['single_hop'], auth=auth)
+                d2.addErrback(lambda f: None)
         d.addCallbacks(lambda r: out.update(result='ok'), lambda f: out.update(result='fail:' + f.type.__name__) and None)
     except Exception as e:
         out['result'] = 'raised:' + type(e).__name__
     cmds = st.commands('ADD_ONION')
-    out['add_onion'] = cmds
+    out['add_onion'] = cmds[:1]
+    if c.get('twice'):
+        out['second'] = cmds[1] if len(cmds) > 1 else None
     if cmds and cfg.EphemeralOnionServices:
-        onion = cfg.EphemeralOnionServices[-1]
+        onion = cfg.EphemeralOnionServices[0]
         out['hostname'] = onion.hostname
         pk = onion.private_key
         out['private_key'] = None if pk is None else 'DISCARD-SENTINEL' if pk is DISCARD else str(pk)
@@ -92,7 +113,7 @@ def run_impl(c):
             out['clients'] = [[n, onion.get_client(n).auth_token] for n in onion.client_names()]
         else:
             out['clients'] = []
-        out['sid'] = st.service_ids[-1] if st.service_ids else None
+        out['sid'] = (st.service_ids[0] if c.get('twice') else st.service_ids[-1]) if st.service_ids else None
         try:
             if c.get('del_refused'):
                 # Tor refuses the first removal; the application asks again
@@ -200,6 +221,9 @@ def run_cases(cases, drv, tier):
                 impl_m['private_key'] = im.get('private_key')
                 impl_m['clients'] = sorted(im.get('clients', []))
                 impl_m['del'] = (im.get('del_onion') or [None])[0]
+                if c.get('twice'):
+                    model['second'] = model['cmd']
+                    impl_m['second'] = im.get('second')
                 if c.get('del_refused'):
                     # every removal request is a DEL_ONION for that address: refused, then accepted
                     model['del_all'] = [model['del'], model['del']]
@@ -225,6 +249,9 @@ def run_cases(cases, drv, tier):
                 if c.get('del_refused'):
                     spec['del_all'] = [spec['del'], spec['del']]
                     impl_view['del_all'] = im.get('del_onion')
+                if c.get('twice'):
+                    spec['second_request_is_the_same'] = True
+                    impl_view['second_request_is_the_same'] = im.get('second') is not None and im.get('second') == (im['add_onion'] or [None])[0]
             prop_ok = impl_view == spec
         tags = ['v%d' % c['version'], 'key=' + c['key'], 'auth=' + c['auth'], 'ports=' + c['ports'], 'del-refused-once' if c.get('del_refused') else 'del-once',
                 'refuse-expected' if exp == 'refused' else 'accept']
